@@ -19,8 +19,10 @@
 package main
 
 import (
+	"bytes"
 	"fmt"
 	"go/ast"
+	"go/printer"
 	"go/token"
 	"path/filepath"
 	"sort"
@@ -1226,6 +1228,90 @@ func emitOrfSearch(repo string, w *strings.Builder) {
 	}
 }
 
+// ---- which pairs DistMatrix's producer sends in range mode ----------------------------------------
+
+func exprText(e ast.Expr) string {
+	var b bytes.Buffer
+	if err := printer.Fprint(&b, fset, e); err != nil {
+		die("facts: cannot print expression: %v", err)
+	}
+	return strings.Join(strings.Fields(b.String()), " ")
+}
+
+// emitRangeGuard finds, in the producer of DistMatrix, the loops `for i := range1Min … { … for j := range2Min … {`
+// and the condition under which the pair (i, j) is sent: `if C { … send … }` gives C,
+// `if C { continue } … send` gives !(C).
+func emitRangeGuard(repo string, w *strings.Builder) {
+	f := parseFile(filepath.Join(repo, "distance/dna/distance.go"))
+	fd := findFunc(f, "", "DistMatrix")
+	if fd == nil {
+		die("facts: DistMatrix not found")
+	}
+	guard := ""
+	found := 0
+	ast.Inspect(fd.Body, func(n ast.Node) bool {
+		fs, ok := n.(*ast.ForStmt)
+		if !ok || fs.Init == nil {
+			return true
+		}
+		as, ok := fs.Init.(*ast.AssignStmt)
+		if !ok || len(as.Rhs) != 1 {
+			return true
+		}
+		if id, ok := as.Rhs[0].(*ast.Ident); !ok || id.Name != "range2Min" {
+			return true
+		}
+		found++
+		hasSend := func(n ast.Node) bool {
+			r := false
+			ast.Inspect(n, func(m ast.Node) bool {
+				if _, ok := m.(*ast.SendStmt); ok {
+					r = true
+				}
+				return true
+			})
+			return r
+		}
+		var neg []string
+		for _, st := range fs.Body.List {
+			if is, ok := st.(*ast.IfStmt); ok && is.Init == nil && is.Else == nil {
+				if hasSend(is.Body) {
+					guard = exprText(is.Cond)
+					for _, c := range neg {
+						guard = "!(" + c + ") && " + guard
+					}
+					return false
+				}
+				if len(is.Body.List) == 1 {
+					if br, ok := is.Body.List[0].(*ast.BranchStmt); ok && br.Tok == token.CONTINUE {
+						neg = append(neg, exprText(is.Cond))
+						continue
+					}
+				}
+			}
+			if _, ok := st.(*ast.SendStmt); ok {
+				break
+			}
+			if hasSend(st) {
+				die("facts: the send of the range-mode loop of DistMatrix is not guarded by a simple if (line %d)", posLine(st.Pos()))
+			}
+		}
+		if _, ok := fs.Body.List[len(fs.Body.List)-1].(*ast.SendStmt); ok && len(neg) > 0 {
+			parts := make([]string, len(neg))
+			for i, c := range neg {
+				parts[i] = "!(" + c + ")"
+			}
+			guard = strings.Join(parts, " && ")
+		}
+		return false
+	})
+	if found != 1 || guard == "" {
+		die("facts: range-mode loop of DistMatrix not understood (loops over range2Min: %d, guard %q)", found, guard)
+	}
+	fmt.Fprintf(w, "/-- the condition under which `DistMatrix`'s producer sends the pair `(i, j)` in range mode -/\n"+
+		"def rangeSendGuard : String := %s\n\n", q(guard))
+}
+
 // ---- mutation facts for the phasing functions ---------------------------------------------------
 
 // inPlaceFuncs: package-level functions that assign to an element of a parameter
@@ -1441,6 +1527,7 @@ func emitFacts(repo, out string) {
 	w.WriteString("import Gv.Model.Facts\nnamespace Gv.Gen.Facts\nopen Gv.Model.Facts\n\n")
 	analyseFacts(repo, "distance/dna/distance.go", "", "DistMatrix", "distMatrix", &w)
 	analyseFacts(repo, "align/phaser.go", "phaser", "Phase", "phase", &w)
+	emitRangeGuard(repo, &w)
 	emitOrfSearch(repo, &w)
 	emitMutationFacts(repo, &w)
 	w.WriteString("end Gv.Gen.Facts\n")
